@@ -351,3 +351,49 @@ Proof.
   rewrite recs_app. cbn [recs map concat]. rewrite app_nil_r. unfold rec.
   rewrite <- !app_assoc. reflexivity.
 Qed.
+
+(** * Queue.Advance on an empty head (after fix a852c65657) *)
+Lemma seg_advance_empty s : spos s >= ssize s - 8 -> seg_advance s = (s, AEOF).
+Proof. intro H. unfold seg_advance. destruct (spos s >=? ssize s - 8) eqn:E; [reflexivity|lia]. Qed.
+
+Lemma set_head_self q s r : qsegs q = s :: r -> set_head q s = q.
+Proof. intro H. destruct q as [ss t ms mg v]. cbn in *. subst ss. reflexivity. Qed.
+
+(** With a single segment that is not full, an Advance with nothing pending is a no-op
+    on the whole queue state (bytes, positions, counters). *)
+Lemma q_advance_empty_noop q s :
+  qsegs q = [s] -> spos s >= ssize s - 8 -> ssize s < smax s -> q_advance q = q.
+Proof.
+  intros Hs He Hf. unfold q_advance, qhead. rewrite Hs. cbn [hd].
+  rewrite (seg_advance_empty s He). rewrite (set_head_self q s [] Hs).
+  unfold trim_head, qhead. rewrite Hs. cbn [hd length Nat.eqb].
+  unfold seg_full. destruct (ssize s >=? smax s) eqn:E; [lia|]. cbn.
+  destruct q as [ss t ms mg v]. cbn in *. subst ss. reflexivity.
+Qed.
+
+(** ... and the next acknowledged Append is stored right after the consumed entries and
+    is what the scanner delivers. *)
+Lemma advance_empty_then_append q l1 m b :
+  qsegs q = [rep l1 [] m] -> ssize (rep l1 [] m) < m ->
+  qtotal q + len b <= qmaxsize q -> 0 < len b < two63 ->
+  let m' := if len b >? m then len b else m in
+  let r := q_append (q_advance q) b in
+  snd r = 0 /\ qsegs (fst r) = [rep l1 [b] m'] /\
+  scan_n 2 (qhead (fst r)) (spos (qhead (fst r))) = ([b], len (recs l1) + len (recs [b]), SEof).
+Proof.
+  intros Hs Hf Ht Hb. cbv zeta.
+  assert (He : spos (rep l1 [] m) >= ssize (rep l1 [] m) - 8).
+  { unfold rep, ssize. cbn [sd spos recs map concat]. rewrite !len_app, len_enc8.
+    change (len (@nil Z)) with 0. lia. }
+  rewrite (q_advance_empty_noop q _ Hs He Hf).
+  unfold q_append. destruct (qtotal q + len b >? qmaxsize q) eqn:E; [lia|].
+  rewrite Hs. cbn [last removelast].
+  rewrite (seg_append_rep l1 [] m b) by lia. cbn [app fst snd with_segs qsegs].
+  split; [reflexivity|]. split; [reflexivity|].
+  unfold qhead. cbn [qsegs hd].
+  remember (if len b >? m then len b else m) as m' eqn:Hm'.
+  assert (Hok : Forall (okE m') [b]).
+  { constructor; [|constructor]. unfold okE. subst m'. destruct (len b >? m) eqn:E2; lia. }
+  unfold rep. cbn [spos].
+  exact (scan_n_spec m' 2 [b] (recs l1) (enc8 (len (recs l1))) (len (recs l1)) Hok (len_enc8 _)).
+Qed.
